@@ -183,6 +183,57 @@ def do_history(job):
     return out
 
 
+def do_world(job):
+    """Strengthening round: several containers sharing LIVE objects (object identity re-use).
+
+    job = dict(ctrs=["module"|"bundle", ...], objs=[[kind, own_name], ...], ops=[...], names=[...], export=k|None)
+    ops:  ["set", c, name, x] | ["add", c, x, name|None] | ["vis", x, bool] | ["name", x, name|None]
+          | ["del", c, name] | ["elab", c]          (c = container index, x = object index)
+    Every object is created once, up front; operations hand the SAME object to containers again and again.
+    After every operation ALL containers are observed."""
+    ctrs = []
+    for k, kind in enumerate(job["ctrs"]):
+        ctrs.append((h.Module(name=f"Edited{k}") if kind == "module" else h.Bundle(name=f"Edited{k}"), kind == "module"))
+    objs, ids = [], {}
+    for x, spec in enumerate(job["objs"]):
+        v = mkval(spec)
+        objs.append(v)
+        if cls_of(v) != 6:
+            ids[id(v)] = x
+    names = job["names"]
+    steps = []
+    for op in job["ops"]:
+        acc, err = True, None
+        try:
+            if op[0] == "set":
+                setattr(ctrs[op[1]][0], op[2], objs[op[3]])
+            elif op[0] == "add":
+                c, v = ctrs[op[1]][0], objs[op[2]]
+                r = c.add(v) if op[3] is None else c.add(v, name=op[3])
+                if r is not v:
+                    err = dict(cls="ReturnValue", msg="add() did not return its argument")
+            elif op[0] == "vis":
+                objs[op[1]].vis = h.signal.Visibility.PORT if op[2] else h.signal.Visibility.INTERNAL
+            elif op[0] == "name":
+                objs[op[1]].name = op[2]
+            elif op[0] == "del":
+                delattr(ctrs[op[1]][0], op[2])
+            elif op[0] == "elab":
+                h.elaborate(ctrs[op[1]][0])
+            else:
+                raise ValueError(op[0])
+        except Exception as e:
+            acc, err = False, exc_info(e)
+        last = len(steps) == len(job["ops"]) - 1
+        steps.append(dict(acc=acc, err=err, obs=[observe(c, is_mod, ids, names) for c, is_mod in ctrs]
+                          if (last or job.get("observe") != "last") else []))
+    out = dict(steps=steps)
+    k = job.get("export")
+    if k is not None:
+        out["export"] = export_names(ctrs[k][0], ctrs[k][1], names)
+    return out
+
+
 def mk_class(name, items):
     """A class whose body assigns the items in order (keys are distinct)."""
     body = {}
@@ -251,7 +302,7 @@ def do_static(job):
 
 
 def handler(p):
-    f = dict(history=do_history, classbody=do_classbody, static=do_static)[p["kind"]]
+    f = dict(history=do_history, classbody=do_classbody, static=do_static, world=do_world)[p["kind"]]
     return dict(results=[f(j) for j in p["jobs"]])
 
 
